@@ -398,6 +398,12 @@ fn obs_all_cw<V: Val>(pma: &CharwiseDoubleArrayAhoCorasick<V>, kind: u8, h: &str
     s
 }
 fn run_cw<V: Val>(c: &Case, out: &mut String) {
+    // the character-wise API takes &str: a case whose patterns or haystacks are not UTF-8 is not
+    // an input of that API (generator slip), so it is skipped on both sides, never a panic
+    if c.pats.iter().any(|(p, _)| std::str::from_utf8(p).is_err()) || c.hays.iter().any(|h| std::str::from_utf8(h).is_err()) {
+        writeln!(out, "SKIP notutf8").unwrap();
+        return;
+    }
     let pats: Vec<String> = c.pats.iter().map(|(p, _)| String::from_utf8(p.clone()).expect("pattern must be UTF-8 for cw")).collect();
     let builder = || CharwiseDoubleArrayAhoCorasickBuilder::new().match_kind(kind_of(c.kind)).num_free_blocks(c.nfb);
     let build = || -> Result<CharwiseDoubleArrayAhoCorasick<V>, DaachorseError> {
